@@ -39,8 +39,8 @@ def bounds(tier):
 
 
 def goals(tier):
-    return ["embedded-items", "fs-supported-file", "fs-ignored-file", "fs-case-variant-extension", "fs-subdirectory", "fs-directory-named-like-a-plasmid",
-            "fs-dotted-stem", "fs-empty-directory", "combined-overlap-first-wins", "combined-small-before-large-overlap", "combined-repeated-member", "combined-closure-or-depth"]
+    return ["embedded-question-order", "embedded-items", "fs-supported-file", "fs-ignored-file", "fs-case-variant-extension", "fs-subdirectory", "fs-directory-named-like-a-plasmid",
+            "fs-dotted-stem", "fs-empty-directory", "fs-question-order", "combined-overlap-first-wins", "combined-small-before-large-overlap", "combined-repeated-member", "combined-closure-or-depth"]
 
 
 # ---------------------------------------------------------------------------------------------
@@ -215,6 +215,31 @@ def unit_embedded(st, name):
     for stem, rid in ids.items():
         if stem != rid:
             st.extra["embedded-stem-differs-from-record-id"] += 1
+    # the answers of a fresh registry object must not depend on the order of the questions
+    ops4 = ["iter", "len", "get", "in"]
+    perms = list(itertools.permutations(ops4)) if name == "ptk" else [tuple(ops4[i:] + ops4[:i]) for i in range(4)]
+    probe = [first, last, "zzz", first.lower() + "x"]
+    ref = None
+    for perm in perms:
+        r2 = regs.registry_objects()[name]
+        out = {}
+        for op in perm:
+            if op == "iter":
+                out["iter"] = sorted(r2)
+            elif op == "len":
+                out["len"] = len(r2)
+            elif op == "get":
+                out["get"] = [(r2[k].id if k in src else None) if k in src else "absent" for k in probe]
+            else:
+                out["in"] = [k in r2 for k in probe]
+        st.scenario("op-order", None, calls=4, nodes=0)
+        if ref is None:
+            ref = out
+        elif out != ref:
+            st.violation("embedded", "answers-depend-on-the-order-of-the-questions", dict(family="embedded", registry=name, order=list(perm)),
+                         {k: str(v)[:100] for k, v in ref.items()}, {k: str(v)[:100] for k, v in out.items()})
+            break
+    st.goal("embedded-question-order")
     n = len(keys or [])
     st.evaluations += n
     st.traces += n
@@ -262,6 +287,57 @@ def check_dir(st, entries, backend, extensions, tmpdir):
     return certain, may
 
 
+def op_orders(st, entries, backend, extensions, tmpdir):
+    """E2 flavour: the answers of one registry object must not depend on the order in which it is asked -- every permutation of
+    {iterate, len, look up every candidate key, membership of every candidate key} on a fresh registry each"""
+    import shutil
+    cand = sorted(set(e.rsplit(".", 1)[0] for e in entries if "." in e and not e.endswith("/")) | {"zzz", "sub/f", "x"})
+    ref = None
+    for perm in itertools.permutations(["iter", "len", "get", "in"]):
+        reg, f = make_registry(backend, entries, extensions, tmpdir)
+        out = {}
+        try:
+            for op in perm:
+                if op == "iter":
+                    out["iter"] = sorted(reg)
+                elif op == "len":
+                    out["len"] = len(reg)
+                elif op == "get":
+                    res = {}
+                    for k in cand:
+                        try:
+                            res[k] = reg[k].id
+                        except KeyError:
+                            res[k] = "KeyError"
+                        except Exception as e:
+                            res[k] = type(e).__name__
+                    out["get"] = res
+                else:
+                    res = {}
+                    for k in cand:
+                        try:
+                            res[k] = k in reg
+                        except Exception as e:
+                            res[k] = type(e).__name__
+                    out["in"] = res
+        finally:
+            try:
+                f.close()
+            except Exception:
+                pass
+            if backend == "os":
+                shutil.rmtree(tmpdir, ignore_errors=True)
+        st.scenario("op-order", None, calls=4, nodes=0)
+        if ref is None:
+            ref = out
+        elif out != ref:
+            st.violation("filesystem", "answers-depend-on-the-order-of-the-questions",
+                         dict(family="fs-order", entries=list(entries), backend=backend, extensions=list(extensions) if extensions else None, order=list(perm)),
+                         {k: str(v)[:120] for k, v in ref.items()}, {k: str(v)[:120] for k, v in out.items()})
+            return
+    st.goal("fs-question-order")
+
+
 def unit_fs(st, size, c, nchunks):
     combos = list(itertools.combinations(range(len(ENTRIES)), size))[c::nchunks]
     base = os.path.join(boot.scratch_dir(), "fs-{}-{}-{}".format(size, c, os.getpid()))
@@ -292,6 +368,9 @@ def unit_fs(st, size, c, nchunks):
                     st.goal("fs-dotted-stem")
                 if not entries:
                     st.goal("fs-empty-directory")
+                if size <= 2 and ext is None:
+                    i += 1
+                    op_orders(st, entries, backend, ext, base + "-%d" % i)
     if combos:
         st.sample(dict(family="fs", entries=[ENTRIES[j] for j in combos[-1]], backend="os", extensions=None))
 
@@ -406,6 +485,8 @@ def replay(scn, sub, st):
     fam = scn.get("family")
     if fam == "embedded":
         unit_embedded(st, scn["registry"])
+    elif fam == "fs-order":
+        op_orders(st, scn["entries"], scn["backend"], scn["extensions"], os.path.join(boot.scratch_dir(), "replay-fs-order"))
     elif fam == "fs":
         tmp = os.path.join(boot.scratch_dir(), "replay-fs")
         check_dir(st, scn["entries"], scn["backend"], scn["extensions"], tmp)
